@@ -364,20 +364,24 @@ func main() {
 		ID:        "C10",
 		DesignRef: "DESIGN.md §5 C10",
 		ModelJobs: func(env *fw.Env) []fw.TLCJob {
+			// All runs with Concurrent = TRUE (other tunnels' frames may land between the frames of one Write).
 			// quick: <=2 writes, one injected kind per id relation / frame type (fd/fdn and fe/fen behave
-			// alike in the model: both header fields differ from ours): 0.27M states, 4-30 s.
-			// thorough: <=3 writes, all seven kinds (4.5M states, 40-250 s depending on machine load) and
-			// the strict clauses without colliding ids (2.2M states). <=4 writes (20M states, 3.5-11 min)
-			// passes too but does not fit the thorough budget on a loaded machine; scripts with 4 writes
-			// are driven from the -simulate job.
+			// alike in the model: both header fields differ from ours): 0.55M states, 8-20 s.
+			// thorough: <=3 writes with those five kinds, <=2 writes with all seven kinds, the strict
+			// clauses without colliding ids (<=2 writes) and the pool model with the proposed probe fix.
+			// Larger bounds pass too (<=3 writes / seven kinds: 10M states; <=4 writes: >20M) but do not
+			// fit the thorough budget on a loaded machine; scripts with 4 writes come from the -simulate job.
+			inj5, inj7 := `{"fd", "fds", "fen", "fes", "unk"}`, `{"fd", "fdn", "fds", "fe", "fen", "fes", "unk"}`
 			jobs := []fw.TLCJob{{Name: "mc:CrossFrame_mc.cfg(W=2)", Module: "CrossFrame", Cfg: "CrossFrame_mc.cfg",
-				Consts: map[string]string{"MAXW": "2", "INJ": `{"fd", "fds", "fen", "fes", "unk"}`}}}
+				Consts: map[string]string{"MAXW": "2", "INJ": inj5}}}
 			if env.Tier == "thorough" {
 				jobs = []fw.TLCJob{
-					{Name: "mc:CrossFrame_mc.cfg(W=3,all kinds)", Module: "CrossFrame", Cfg: "CrossFrame_mc.cfg",
-						Consts: map[string]string{"MAXW": "3", "INJ": `{"fd", "fdn", "fds", "fe", "fen", "fes", "unk"}`}, Timeout: 14 * time.Minute},
+					{Name: "mc:CrossFrame_mc.cfg(W=3)", Module: "CrossFrame", Cfg: "CrossFrame_mc.cfg",
+						Consts: map[string]string{"MAXW": "3", "INJ": inj5}, Timeout: 14 * time.Minute},
+					{Name: "mc:CrossFrame_mc.cfg(W=2,all kinds)", Module: "CrossFrame", Cfg: "CrossFrame_mc.cfg",
+						Consts: map[string]string{"MAXW": "2", "INJ": inj7}, Timeout: 14 * time.Minute},
+					{Name: "mc:CrossFrame_strict.cfg(W=2)", Module: "CrossFrame", Cfg: "CrossFrame_strict.cfg", Consts: map[string]string{"MAXW": "2"}, Timeout: 14 * time.Minute},
 					{Name: "mc:CrossFramePool_fixed.cfg", Module: "CrossFramePool", Cfg: "CrossFramePool_fixed.cfg", Workers: 1},
-					{Name: "mc:CrossFrame_strict.cfg(W=3)", Module: "CrossFrame", Cfg: "CrossFrame_strict.cfg", Consts: map[string]string{"MAXW": "3"}, Timeout: 14 * time.Minute},
 				}
 			}
 			return jobs
